@@ -84,18 +84,52 @@ let run (toks : string list) : string =
       let r = render_result spec sink in
       Printf.sprintf "%s %d %d" (result_class r) (int_of_nat r.M.r_n) (List.length r.M.r_out)
   | ["history"; _; ops; spec] ->
-      (* successive renders threading the message state (caches) and the randomness oracle *)
+      (* a history of output-path operations and edits, run by Paths.run_op (one model step per operation);
+         the randomness oracle is threaded: every render draws one boundary per multipart kind in use *)
       let (m0, date, msgid, rb0) = parse_msg spec in
       let rec drop n l = if n <= 0 then l else (match l with [] -> [] | _ :: t -> drop (n - 1) t) in
-      let m = ref m0 and rb = ref rb0 and outs = ref [] in
+      let st = ref { M.ps_b = { M.b_enc = enc_of "quoted-printable"; M.b_msg = m0 }; M.ps_rd = None } in
+      let rb = ref rb0 and outs = ref [] in
+      let cur () = (!st).M.ps_b.M.b_msg in
+      let draws () = (if M.has_mixed (cur ()) then 1 else 0) + (if M.has_related (cur ()) then 1 else 0) + (if M.has_alt (cur ()) then 1 else 0) in
+      let orc () = { M.o_date = date; M.o_msgid = msgid; M.o_rb = !rb; M.o_sb = [] } in
+      let step x = let (st', out) = M.run_op M.render_plain !st x in st := st'; out in
+      let rendering x = let d = draws () in let out = step x in rb := drop d !rb; out in
+      let emit out = match out with M.OutRender (_, d, _, _, _) -> outs := !outs @ [hex_of_bytes d] | _ -> () in
+      let sizes = [| 1; 7; 64; 1000; 3 |] in
       List.iter (fun op ->
-        let draws = (if M.has_mixed !m then 1 else 0) + (if M.has_related !m then 1 else 0) + (if M.has_alt !m then 1 else 0) in
-        let sink = if op.[0] = 'K' then M.fail_at (nat_of_int (int_of_string (String.sub op 1 (String.length op - 1)))) false
-                   else M.unlimited in
-        let r = M.write_to date msgid !rb !m sink in
-        rb := drop draws !rb;
-        m := r.M.r_msg;
-        if op.[0] <> 'K' then outs := !outs @ [hex_of_bytes r.M.r_out]) (split_on ',' ops);
+        if String.length op > 0 then
+        match op.[0] with
+        | 'W' -> emit (rendering (M.ORender (M.PWriteTo, orc (), M.unlimited)))
+        | 'w' -> emit (rendering (M.ORender (M.PWrite, orc (), M.unlimited)))
+        | 'X' -> emit (rendering (M.ORender (M.PSkipMw, orc (), M.unlimited)))
+        | 'F' -> emit (rendering (M.ORender (M.PFile, orc (), M.unlimited)))
+        | 'T' -> emit (rendering (M.ORender (M.PTempFile, orc (), M.unlimited)))
+        | 'S' -> emit (rendering (M.ORender (M.PSend, orc (), M.unlimited)))
+        | 'K' -> let k = int_of_string (String.sub op 1 (String.length op - 1)) in
+                 ignore (rendering (M.ORender (M.PWriteTo, orc (), M.fail_at (nat_of_int k) false)))
+        | 'R' | 'U' ->
+            let fresh = op.[0] = 'R' || (!st).M.ps_rd = None in
+            ignore (rendering (if fresh then M.ONewReader (orc ()) else M.OUpdateReader (orc ())));
+            let acc = ref [] and i = ref 0 and go = ref true in
+            while !go do
+              (match step (M.ORead (nat_of_int sizes.(!i mod 5))) with
+               | M.OutRead (d, M.RdOk) -> acc := !acc @ d
+               | _ -> go := false);
+              incr i
+            done;
+            outs := !outs @ [hex_of_bytes !acc]
+        | 'e' ->
+            (match split_on ':' op with
+             | ["eS"; v] -> ignore (step (M.OEdit (M.CS (M.SSubject (bytes_of_hex v)))))
+             | ["eA"; ct; en; content] ->
+                 ignore (step (M.OEdit (M.CB (M.BAddAlt (bytes_of_hex ct, Some (enc_of en), None, [], { M.pchunks = [bytes_of_hex content]; M.pfail = false })))))
+             | ["eT"; nm; mi; content] ->
+                 let f = { M.f_name = bytes_of_hex nm; M.f_mime = bytes_of_hex mi; M.f_enc = None; M.f_desc = []; M.f_hdr = [];
+                           M.f_prod = { M.pchunks = [bytes_of_hex content]; M.pfail = false } } in
+                 ignore (step (M.OEdit (M.CB (M.BAttach f))))
+             | _ -> failwith "bad edit op")
+        | _ -> failwith "bad history op") (split_on ',' ops);
       if !outs = [] then "-" else String.concat "," !outs
   | "smime" :: spec :: sb :: sigder :: sink :: _ ->
       (* S/MIME render: the signature bytes come from the implementation (CMS oracle) *)
